@@ -94,6 +94,7 @@ type c13Behaviour struct {
 	zeroAbove int
 	extended  bool
 	eofWarn   bool
+	page      int // responses never cross a multiple of this offset
 }
 
 var c13Behaviours = []c13Behaviour{
@@ -115,9 +116,12 @@ var c13Behaviours = []c13Behaviour{
 	{name: "lecap200-6Cxx", leCap: 200, leCapSW: 0x6C00, extended: true},
 	{name: "zero-above-235", zeroAbove: 235, extended: true},
 	{name: "all-eofwarn", extended: true, eofWarn: true},
+	{name: "page256", extended: true, page: 256},
+	{name: "page128", page: 128},
 }
 
-var c13MaxReads = []int{1, 2, 3, 4, 5, 127, 128, 129, 192, 255, 256, 257, 1000, 32767, 32768, 65535, 65536}
+// 32763..32765: the read after the header read starts at offset 32767 / 32768 / 32769 (15-bit offset boundary)
+var c13MaxReads = []int{1, 2, 3, 4, 5, 127, 128, 129, 192, 255, 256, 257, 1000, 32763, 32764, 32765, 32767, 32768, 65535, 65536}
 
 var c13Sizes = func() []int {
 	var s []int
@@ -156,6 +160,7 @@ func c13Run(k *fw.K, cs c13Case) {
 		card.ShortReadRNG = mrand.New(mrand.NewPCG(r.Uint64(), 3))
 	}
 	card.LeCap, card.LeCapSW, card.ZeroReadAbove, card.EOFWarning = b.leCap, b.leCapSW, b.zeroAbove, b.eofWarn
+	card.PageSize = b.page
 	// neighbours with recognisable content under every short EF identifier
 	for n := 1; n <= 16; n++ {
 		nb := make([]byte, 300)
